@@ -387,6 +387,37 @@ theorem mpas_zeros_reindex (t : List (List (Option Nat))) :
   | none => exact zeroOne_zero
   | some v => exact zeroOne_real v
 
+/-- one per-cell row whose valid prefix may itself contain missing entries (`cellsOnCell` of a
+    boundary cell: `0` INSIDE the first `nEdgesOnCell` entries), followed by any padding -/
+theorem mpas_cell_row_reindex (pre : List (Option Nat)) (tail : List Int) :
+    decodeMpasRow (pre.map enc1 ++ tail) pre.length
+      = pre.map std1 ++ List.replicate tail.length FILL := by
+  unfold decodeMpasRow replacePadding
+  have hl : (pre.map enc1).length = pre.length := by simp
+  rw [List.take_left' hl, List.map_append, List.map_map, List.map_replicate, zeroOne_fill]
+  congr 1
+  · apply List.map_congr_left
+    intro o _
+    cases o with
+    | none => exact zeroOne_zero
+    | some v => exact zeroOne_real v
+  · congr 1; simp
+
+/-- **MPAS per-cell tables with missing entries** (`cellsOnCell`, and `edgesOnCell` /
+    `verticesOnCell` a fortiori): every entry of the valid prefix is carried over with the same
+    meaning (`k ↦ k−1`, missing `0 ↦ FILL`, wherever it stands), everything past
+    `nEdgesOnCell` becomes `FILL` whatever it held. -/
+theorem mpas_cells_reindex (src : List (List (Option Nat) × List Int)) :
+    decodeMpas (src.map (fun p => p.1.map enc1 ++ p.2)) (src.map (fun p => p.1.length))
+      = src.map (fun p => p.1.map std1 ++ List.replicate p.2.length FILL) := by
+  unfold decodeMpas
+  rw [zip_map_same, List.map_map]
+  apply List.map_congr_left
+  intro p _
+  exact mpas_cell_row_reindex p.1 p.2
+
+example : decodeMpas [[2, 0, 5, 5], [1, 3, 0, 7]] [3, 4] = [[1, FILL, 4, FILL], [0, 2, FILL, 6]] := by decide
+
 /-- **MPAS dual round trip**: `cellsOnVertex` one-based and zero-padded at the end. -/
 theorem mpas_dual_roundtrip (w : Nat) (m : Mesh) :
     decodeMpasZeros (m.map (fun f => f.map (fun v => Int.ofNat v + 1)
